@@ -66,7 +66,8 @@ def simulate(throughput, participants, removals):
                     offset, volume, limit = st['rounds'][st['index']]
                     st['phase'] = 'transfer'
                     st['remaining'] = frac(volume)
-                    st['limit'] = capacity if limit is None else frac(limit)
+                    # no limit of its own (None or inf): whatever the pipe provides
+                    st['limit'] = capacity if limit is None or limit == INF else frac(limit)
                     progress = True
                 if st['phase'] == 'transfer' and (st['remaining'] == 0 or st['limit'] == INF):
                     st['ends'].append(now)
